@@ -291,15 +291,24 @@ def run(facts, res):
                 if st.kind == "assign" and st.rv.kind == "agg" and st.rv.j.get("adt") == "revision::Revision":
                     n += 1
                     for fld, op in zip(st.rv.j["fields"], st.rv.operands()):
-                        t = du.operand_term(op, 20)
-                        gs = [x[2] for c in walk(t) if c[0] == "call" and callee_name(c) == "name" for x in walk(c[2][1]) if x[0] == "const" and x[1] == "str"]
+                        t = inline_calls(du.operand_term(op, 20), facts)      # sees through a local `group(name)` closure
+                        gs = sorted({x[2] for c in walk(t) if c[0] == "call" and callee_name(c) == "name" for x in walk(c[2][1]) if x[0] == "const" and x[1] == "str"})
                         if t[0] == "agg" and t[2] == "None":
                             continue
+                        tv = t
+                        while tv[0] == "var":
+                            tv = tv[3]
+                        if tv[0] == "call" and callee_name(tv) in ("then", "then_some") and len(tv[2]) >= 2:
+                            # `cond.then(|| group("tail").to_string())`: the value is the closure's result; the condition is judged by P3b
+                            vals_ = tv[2][1:]
+                            gs = sorted({x[2] for v_ in vals_ for c in walk(v_) if c[0] == "call" and callee_name(c) == "name"
+                                         for x in walk(c[2][1]) if x[0] == "const" and x[1] == "str"})
                         if gs != [fld]:
                             res.violation("P3", "Revision::from|group-field:%s" % fld, "Revision::from fills field %s from regex group(s) %s" % (fld, gs), fb.loc(st.line))
                         # the captured text is taken over unmodified (views, copies and the integer parse only)
                         between = {callee_name(c) for c in walk(t) if c[0] == "call"} - {"name", "captures", "unwrap", "expect", "as_str", "to_string", "to_owned",
-                                                                                       "parse", "into", "from", "deref", "branch", "clone", "as_ref"}
+                                                                                       "parse", "into", "from", "deref", "branch", "clone", "as_ref",
+                                                                                       "call", "call_mut", "call_once", "then", "then_some"}
                         if between:
                             res.violation("P3", "Revision::from|group-text-transformed:%s" % fld,
                                           "Revision::from transforms the captured text of group `%s` (%s) before storing it: printing a revision and parsing it back "
@@ -339,6 +348,34 @@ def run(facts, res):
                                   "text `1-d_t` is a revision that prints as `1-d` but is not the creation revision; its children carry the identifiers of the "
                                   "children of `1-d`, so one revision can be recorded with two parents and the first arrival wins (winner depends on arrival order)",
                                   fb.loc(st.line))
+        # `tail: (with_tail && index > 1).then(|| group("tail")..)`: the condition of the `then` must imply index > 1
+        for fbm in members_of(facts, fb):
+            du = du_of(fbm)
+            for bi, t in fbm.calls():
+                if t.callee is None or t.callee.name not in ("then", "then_some") or len(t.args) < 2:
+                    continue
+                vt = inline_calls(du.call_term(t, bi, 20), facts)
+                gs_ = [x[2] for c in walk(vt) if c[0] == "call" and callee_name(c) == "name" and len(c[2]) > 1 for x in walk(c[2][1]) if x[0] == "const" and x[1] == "str"]
+                if "tail" not in gs_:
+                    continue
+                nb += 1
+                cond = du.operand_term(t.args[0], 16)
+                while cond[0] == "var":
+                    cond = cond[3]
+                alts = cond[1] if cond[0] == "phi" else [cond]
+                ok = bool(alts)
+                for a_ in alts:
+                    while a_[0] == "var":
+                        a_ = a_[3]
+                    if a_[0] == "const" and a_[1] == "bool" and a_[2] is False:
+                        continue
+                    from ..conds import Lit as _Lit
+                    if not (a_[0] == "binop" and _means_index_gt_1(_Lit("cmp", a_, True))):
+                        ok = False
+                res.instance("P3", "Revision::from: a tail is taken from the text only for index > 1 (condition of `then`): %s" % ok, fbm.loc(t.line))
+                if not ok:
+                    res.violation("P3", "Revision::from|tail-accepted-for-first-revision",
+                                  "Revision::from accepts a tail for every index, Display prints it only for index > 1 while Eq/Hash compare it", fbm.loc(t.line))
         res.floor("P3", "parser aggregates carrying a tail", nb, 1)
 
     # ------------------------------------------------------------------ P4
@@ -512,7 +549,9 @@ def _means_index_gt_1(l):
         return False
     if a[0] == "const":
         a, b, op = b, a, flip[op]
-    if b[0] != "const" or not any(y[0] == "field" and y[2] == "index" for y in walk(a)):
+    idx_like = any(y[0] == "field" and y[2] == "index" for y in walk(a)) or \
+        any(y[0] == "call" and callee_name(y) in ("name", "call") and any(z[0] == "const" and z[1] == "str" and z[2] == "index" for z in walk(y)) for y in walk(a))
+    if b[0] != "const" or not idx_like:
         return False
     if l.truth is False:
         op = neg[op]
